@@ -923,6 +923,61 @@ def normalize_unbound_tensor_calls(tree: ast.Module) -> int:
     return n_rw
 
 
+def normalize_aliases(tree: ast.Module) -> int:
+    """In every function, a name bound exactly once to a *selector* (`ext = rule.rhs.ext`, `function = d['function']`) is replaced
+    by the selector where it is read, provided the selected-from names are not rebound (for-loop targets excepted: they are
+    rebound before the alias is taken).  The binding statement stays."""
+    n_sub = 0
+
+    def selector(e: ast.AST) -> bool:
+        if isinstance(e, ast.Name):
+            return True
+        if isinstance(e, ast.Attribute):
+            return selector(e.value)
+        if isinstance(e, ast.Subscript):
+            return selector(e.value) and isinstance(e.slice, ast.Constant)
+        return False
+    for fn in [x for x in ast.walk(tree) if isinstance(x, FUNC)]:
+        stores: Dict[str, int] = {}
+        loop_t: Dict[str, int] = {}
+        binds: Dict[str, List[ast.AST]] = {}
+        params = {a.arg for a in fn.args.posonlyargs + fn.args.args + fn.args.kwonlyargs} | ({fn.args.vararg.arg} if fn.args.vararg else set()) | ({fn.args.kwarg.arg} if fn.args.kwarg else set())
+        for n in _own_walk(fn):
+            if isinstance(n, ast.Name) and isinstance(n.ctx, (ast.Store, ast.Del)):
+                stores[n.id] = stores.get(n.id, 0) + 1
+            if isinstance(n, ast.For):
+                for t in ast.walk(n.target):
+                    if isinstance(t, ast.Name):
+                        loop_t[t.id] = loop_t.get(t.id, 0) + 1
+            if isinstance(n, ast.Assign) and len(n.targets) == 1 and isinstance(n.targets[0], ast.Name):
+                binds.setdefault(n.targets[0].id, []).append(n)
+        alias: Dict[str, ast.AST] = {}
+        for k, bs in binds.items():
+            if len(bs) != 1 or stores.get(k) != 1 or k in params:
+                continue
+            v = bs[0].value
+            if not selector(v) or isinstance(v, ast.Name):
+                continue
+            base = [x.id for x in ast.walk(v) if isinstance(x, ast.Name)]
+            if all((stores.get(b, 0) == 0) or (b not in params and stores.get(b, 0) == 1) or (stores.get(b, 0) == loop_t.get(b, 0)) for b in base) and not any(b in alias for b in base):
+                alias[k] = v
+        # nested functions that rebind the alias name are left alone (free uses inside them are not touched at all)
+        if not alias:
+            continue
+        bind_nodes = {id(bs[0].targets[0]) for bs in binds.values() if len(bs) == 1}
+        for n in list(_own_walk(fn)):
+            for fld, val in ast.iter_fields(n):
+                if isinstance(val, ast.Name) and isinstance(val.ctx, ast.Load) and val.id in alias:
+                    setattr(n, fld, ast.copy_location(copy.deepcopy(alias[val.id]), val)); n_sub += 1
+                elif isinstance(val, list):
+                    for i, x in enumerate(val):
+                        if isinstance(x, ast.Name) and isinstance(x.ctx, ast.Load) and x.id in alias:
+                            val[i] = ast.copy_location(copy.deepcopy(alias[x.id]), x); n_sub += 1
+    if n_sub:
+        ast.fix_missing_locations(tree)
+    return n_sub
+
+
 def inline_new_helpers(tree: ast.Module, modname: str, inventory: Optional[Set[str]]) -> Tuple[Set[str], List[str]]:
     """Mutates `tree`; returns (qualnames of the functions that are not in the inventory, log)."""
     if not inventory:
